@@ -108,3 +108,57 @@ func c14PG(e *Env) {
 		}
 	}
 }
+
+// c14PGSchema: the restore function of a SCHEMA-bound PostgreSQL dev connection (dev URL with search_path):
+// whatever a replay leaves in the schema - tables, types, a view on top of a table (which the community
+// inspector does not list, so only a cascading drop removes it) - the schema is handed back as it was.
+func c14PGSchema(e *Env) {
+	replays := [][]string{
+		{`CREATE TABLE "public"."t" ("id" integer)`},
+		{`CREATE TYPE "public"."status" AS ENUM ('a')`, `CREATE TABLE "public"."t" ("id" integer)`},
+		{`CREATE TABLE "public"."t" ("id" integer)`, `CREATE VIEW "public"."v" AS SELECT "id" FROM "public"."t"`},
+		{`CREATE TABLE "public"."t1" ("id" integer)`, `CREATE TABLE "public"."t2" ("id" integer)`, `CREATE VIEW "public"."v2" AS SELECT "id" FROM "public"."t2"`},
+	}
+	ctx := context.Background()
+	for ri, rp := range replays {
+		for failAt := -1; failAt < len(rp); failAt++ {
+			f := newFakePG()
+			db := sql.OpenDB(f)
+			before := f.State()
+			id := fmt.Sprintf("pg schema-bound: replay %d failing at %d", ri, failAt)
+			rep := map[string]any{"case": id, "replay": rp, "fail_at": failAt}
+			e.Res.Count("pg/"+id, true, "pg-dev", "pg-schema-bound")
+			drv, err := postgres.Open(db)
+			if err != nil {
+				db.Close()
+				return
+			}
+			pd, ok := drv.(*postgres.Driver)
+			if !ok {
+				db.Close()
+				return
+			}
+			desired, err := pd.InspectSchema(ctx, "public", nil)
+			if err != nil {
+				e.Res.Violate("no-failing-input-found", "fakepg-inspect-fails", fmt.Sprintf("%s: InspectSchema on the stand-in fails: %v (%v)", id, err, f.Unknown), "correspondence C14 pg", rep)
+				db.Close()
+				continue
+			}
+			restore := pd.SchemaRestoreFunc(desired)
+			for k, s := range rp {
+				if k == failAt {
+					break
+				}
+				db.ExecContext(ctx, s)
+			}
+			f.Execs = nil
+			rerr := restore(ctx)
+			if after := f.State(); rerr != nil {
+				e.Res.Violate("failing-input", "restore-fails", fmt.Sprintf("%s: the restore function of the schema-bound connection fails: %v (statements: %v)", id, rerr, f.Execs), "Props.C14.returns_empty (pg)", rep)
+			} else if after != before {
+				e.Res.Violate("failing-input", "dev-not-returned-empty", fmt.Sprintf("%s: the dev schema is handed back as {%s}, it was {%s}; clean-up statements: %v", id, after, before, f.Execs), "Props.C14.returns_empty (pg)", rep)
+			}
+			db.Close()
+		}
+	}
+}
